@@ -228,7 +228,14 @@ impl World {
             "Init" => Ok(()),
             "Create" => {
                 let name = act["name"].as_str().unwrap();
-                let opts = ks_options(&self.variant);
+                // every other time the options are cloned from the handle of another live keyspace
+                // (they then carry whatever that keyspace's options carry, e.g. its compaction
+                // filter factory): which filter the NEW keyspace gets is the assigner's decision
+                let donor = self.ks.values().next().cloned();
+                let opts = match donor {
+                    Some(d) if (self.conc.seed ^ crate::util::hash_str(name)) % 2 == 0 => d.config.clone(),
+                    _ => ks_options(&self.variant),
+                };
                 let k = self.db().keyspace(name, move || opts).map_err(e)?;
                 self.ks.insert(name.to_string(), k);
                 Ok(())
